@@ -120,9 +120,13 @@ def lemma_vcs(reg, lm):
         vcs += pre
         vcs.append(mk("lemma.%s.base" % lm.name, prior + hb + facts, bb))
         _, _, hs, bs = lemma_formula(eng, reg, lm, {lm.induction: k + 1})
-        # induction hypothesis: the statement at k for ALL values of the other parameters
-        others = [v for v in vs if not v.eq(k)]
-        ih = z3.Implies(z3.And(*hyps + [z3.BoolVal(True)]), body)
+        # induction hypothesis: the statement at k for all values of the other parameters THAT THE BASE DOES NOT MENTION.
+        # (For fixed values of the parameters occurring in the base expression b, this is ordinary induction from b on
+        # the predicate "for all the remaining parameters ..."; quantifying the hypothesis over a parameter of b as well
+        # would assume the statement below other bases — there is no first integer to start from — and is unsound.)
+        in_base = {t.get_id() for t in solve._walk(base, set())} if z3.is_expr(base) else set()
+        others = [v for v in vs if not v.eq(k) and v.get_id() not in in_base]
+        ih = z3.Implies(z3.And(*hyps + [k >= base]), body)
         ihq = z3.ForAll(others, ih) if others else ih
         ctx = prior + [k >= base, ihq, ih] + hs
         facts, pre = with_hints(lm.hints, ctx, st.env)
@@ -400,11 +404,19 @@ def run_property(prop, tier, seed):
             "pyvc VC generator (/verif/pyvc, ~1.5 kLOC) and its encoding assumptions A-int, A-float",
             "z3 %s / cvc5 1.0.3 answers" % z3.get_version_string()]
         out["lemmas"] = [lm.name for lm in lemmas]
+        if lemmas:
+            from pyvc import canary
+            bad, njobs = canary.wrongly_proved()
+            out["guards"]["soundness canaries (false lemmas that must not be proved)"] = \
+                "%d obligations, none proved" % njobs if not bad else "PROVED: %s" % bad
+            if bad:
+                out["crashes"].append("soundness canary proved (%s): the VC engine is unsound, no verdict" % bad)
         for c in contracts:
             short = c.key.split("::")[-1]
             frag = getattr(c, "fragment", None)
             if frag:
-                what = ("the first %d statement(s)" % frag["head"]) if "head" in frag else (
+                what = ("the body of loop #%d (one arbitrary iteration)" % frag["body_of_loop"]) if "body_of_loop" in frag else (
+                    "the first %d statement(s)" % frag["head"]) if "head" in frag else (
                     "top-level loop #%d%s" % (frag["loop"], (" and the %d statements before it" % frag["prelude"])
                                               if frag.get("prelude") else ""))
                 out["assumptions"].append("fragment %s: only %s of the function is verified, from the live-in variables "
